@@ -63,6 +63,9 @@ def pool():
         # must not take part in equality)
         D(("a", L()), ("b", L(I(1)))), D(("b", L(I(1))), ("a", L())), D(("j", Some(I(2))), ("k", NONE)), D(("k", NONE), ("j", Some(I(2)))),
         D(("a", L(L())), ("b", L(L(I(1))))), D(("b", L(L(I(1)))), ("a", L(L()))), L(D(("a", L()), ("b", L(I(1))))), L(D(("b", L(I(1))), ("a", L()))),
+        # dict / tuple / list members whose recorded types are mutually incomparable (Result<Int, NoValue> vs Result<NoValue, String>)
+        D(("a", Ok(I(1))), ("b", Err(S("e")))), D(("b", Err(S("e"))), ("a", Ok(I(1)))), L(Ok(I(1)), Err(S("e"))), T(Ok(I(1)), Err(S("e"))),
+        D(("a", Some(I(1))), ("b", NONE), ("c", Some(I(2)))), D(("c", Some(I(2))), ("b", NONE), ("a", Some(I(1)))),
         RED, GREEN, Cust(I(1)), Cust(I(2)), Other(I(1)),
         L(RED), Some(RED), T(RED, I(1)), L(ST("Foo", ("f", I(1)), ("g", S("a")))), Some(ST("Pt", ("v", F("1.5")))),
     ]
